@@ -45,6 +45,7 @@ func genericReplay(e *Env) int {
 			c.Globals = jsonInts(g).(map[string]any)
 		}
 		c.Prime, c.Config = str("prime"), str("config")
+		c.Route = routeByName(str("route"))
 	case "src":
 		src := str("src")
 		if src == "" && str("src_hex") != "" {
